@@ -182,6 +182,12 @@ pub(crate) fn build(body_mode: usize) -> Built {
         }
         resp.set_body(Body::new(v));
         len = Some(body_len);
+        // the body may be replaced afterwards by an empty one: Content-Length must follow
+        if PROFILE == 1 && kani::any() {
+            resp.set_body(Body::new(Vec::new()));
+            len = Some(0);
+            body_len = 0;
+        }
     }
     let deprecation: bool = if PROFILE >= 2 { false } else { kani::any() };
     if deprecation {
@@ -280,7 +286,7 @@ pub(crate) fn model(b: &Built) -> Out {
 // @harness props=C05 props_thorough=C03 tiers=quick:N=0,K=1|N=3,K=1;thorough:N=0,K=1|N=3,K=1|N=12,K=1|N=0,K=0,MEM=16|N=2,K=0,MEM=16 unwind=max(28,N+2) cap=3000 mem=13 covers=4
 // @fn Response::new Response::set_body Response::set_content_length Response::set_content_type Response::set_deprecation Response::set_encoding Response::set_server Response::set_allow Response::allow_method Response::write_all StatusLine::write_all ResponseHeaders::write_all ResponseHeaders::write_allow_header ResponseHeaders::write_deprecation_header Response::write_body StatusCode::raw Version::raw Method::raw MediaType::as_str
 // @claim write_all into a Vec equals the documented layout byte for byte (length and an arbitrary index), for symbolic status, version, flags, allow list (0..3 symbolic methods via either setter), server string, optional set_content_length(None) before the body; Content-Length present <=> status not in {100,204} or a body was set, and equals the body length
-// @bounds body: unset (N=0) or N-1 symbolic bytes; status x version symbolic over all 22 combinations; builder calls in one fixed order; K=1 fixes content type (json), server string (default) and the number of Allow entries (2, methods symbolic); K=2 additionally no Allow, Deprecation or Accept-Encoding lines (status and version stay symbolic); K=3 additionally status 200 and HTTP/1.1
+// @bounds body: unset (N=0) or N-1 symbolic bytes (K=1: optionally replaced afterwards by an empty body); status x version symbolic over all 22 combinations; builder calls in one fixed order; K=1 fixes content type (json), server string (default) and the number of Allow entries (2, methods symbolic); K=2 additionally no Allow, Deprecation or Accept-Encoding lines (status and version stay symbolic); K=3 additionally status 200 and HTTP/1.1
 #[kani::proof]
 fn c05_layout() {
     let b = build(N);
